@@ -1,7 +1,7 @@
 (* Prop_C05.v — C05: every hold is released exactly once, in its own mode, by its holder.
    Call-level theorems (fault-free worlds, every shape); `eff` includes that every event emitted is clean:
    no release by a non-holder / in the wrong mode (RBad) is ever issued. *)
-From HL Require Import Base Model Shape Algo Api OpsLemmas Lemmas ShapeLemmas ApiLemmas QuietLemmas Check Monitors Pf_Calls.
+From HL Require Import Base Model Shape Algo Api OpsLemmas Lemmas ShapeLemmas ApiLemmas QuietLemmas Check Monitors Pf_Calls Pf_Acct Pf_Hist Pf_Hist5.
 
 Theorem C05_guard_drop_exact :
   forall t m items w, quiet w -> NoDup (locks_of (gleaves items)) -> held_all t m (gleaves items) (w_raw w) = true ->
@@ -31,5 +31,48 @@ Theorem C05_all_free_after_roundtrip :
   forall x, rel_all t m ls (acq_all t m ls f) x = f x.
 Proof. exact rel_acq_all. Qed.
 
+(* ---------------------------------------------------------------- every history (partial) *)
+(* The statement at full strength is  forall sc, wf_histb sc = true -> mon_C05 sc (model_obs sc) = true ; it is
+   evaluated on every generated scenario by the check.  Proved below, for EVERY fault-free history of any number of
+   threads over any collections, is the monitor [mon_C05p], which is [mon_C05] without two of its clauses:
+     - that a scoped call releases each of its leaves exactly once (known here only as: the hold table after the call is
+       the one before it, and no release by a non-holder occurs), and
+     - that a call which is cut because it has to wait issued no release by a non-holder before it waited.
+   What is proved: no call that runs to its end ever issues a release for a lock its thread does not hold (or in the
+   wrong mode); dropping or unlocking a guard releases every hold of that guard exactly once, releases nothing else, and
+   leaves none of them held; and when no guard of the history is alive or leaked any more, every lock is exactly as it
+   was at the start (holds of other parties included). *)
+Theorem C05_every_history_partial :
+  forall sc, wf_histb sc = true -> mon_C05p sc (model_obs sc) = true.
+Proof. exact C05_all_histories_partial_dec. Qed.
+Check C05_every_history_partial : forall sc, wf_histb sc = true -> mon_C05p sc (model_obs sc) = true.
+
+(* the monitor of the check implies the proved one (so the proved one is not stronger than what the implementation is held to) *)
+Theorem C05_partial_is_weaker : forall sc obs, mon_C05 sc obs = true -> mon_C05p sc obs = true.
+Proof. exact mon_C05_implies_partial. Qed.
+
+(* hold accounting, for EVERY program, world (faults included) and outcome: what a thread holds afterwards is what it
+   held before plus its successful acquisitions minus its successful releases in the trace *)
+Theorem C05_hold_accounting :
+  forall pw t p w out w', run pw t p w = (out, w') ->
+  exists evs, w_trace w' = evs ++ w_trace w /\ Forall (by_thread t) evs /\
+              forall l, hc t (w_raw w' l) + releases_of l evs = hc t (w_raw w l) + acquires_of l evs.
+Proof. exact run_acct. Qed.
+
+Definition ex_hist5 : scen :=
+  mks 3 1 [0; 1; 2] []
+      [SLeaf KMutex 0; SPoison 0 (SLeaf KRw 1); SBoxed (SSeq [SLeaf KMutex 0; SPoison 0 (SLeaf KRw 1)]);
+       SRetry (SSeq [SLeaf KMutex 0; SLeaf KMutex 2])]
+      [(2, mkraw (Some 100) [])] [] [] 4
+      [(0, AKeyGet); (0, AAcquire 2 Ex FGuard); (1, AKeyGet); (1, AAcquire 3 Ex FTry);
+       (0, AGuardRead 1); (0, AGuardUnlock); (0, AAcquire 1 Sh FGuard); (1, AAcquire 1 Sh FGuard); (0, AGuardDrop);
+       (1, AGuardDrop); (0, AKeyGet); (0, AAcquire 1 Sh (FScoped true [CRead 0; CPanic]))].
+Example C05_every_history_nonvacuous :
+  wf_histb ex_hist5 = true /\ length (model_obs ex_hist5) = 12 /\ mon_C05p ex_hist5 (model_obs ex_hist5) = true /\
+  mon_C05 ex_hist5 (model_obs ex_hist5) = true.
+Proof. vm_compute. repeat split. Qed.
+
 Print Assumptions C05_guard_drop_exact.
 Print Assumptions C05_collection_unlock_exact.
+Print Assumptions C05_every_history_partial.
+Print Assumptions C05_hold_accounting.
